@@ -396,3 +396,45 @@ def r_segflag(ctx):
     n = check_segmentation_flag(ctx, [body_for(ctx, T + 'BaseTokenizer::process_input', BYTE)], 'token groups')
     if n == 0:
         raise AnchorMissing('CharString::new sites of the token groups code')
+
+
+@rule('C17', 'R-C17-7', 'prerequisite (the segmentation primitive)',
+      'CharString::new segments by graphemes(true) / chars() selected by the flag alone and keeps byte lengths at full width '
+      '(R-C11-6 re-evaluated): every index, length and range of this property is counted in its characters')
+def r_charstring(ctx):
+    from rules import c11
+    c11.charstring_primitive(ctx)
+
+
+@rule('C17', 'R-C17-8', 'T3 (one row per item)',
+      'Batch<TrainItem>::tensorize keeps every item of the batch: the per-item extraction returns Some(..) for every item whose '
+      'input has the variant of the branch, under no other condition (an item dropped for being empty shifts all later rows and '
+      'its true length is not reported)')
+def r8(ctx):
+    from analysis.alts import ret_alts_paths, consistent
+    cands = [b for b in ctx.facts.bodies if b.path.endswith('::tensorize') and b.kind != 'Closure' and b.impl_self and 'TrainItem' in b.impl_self and b.file() == 'src/data/mod.rs']
+    if len(cands) != 1:
+        raise AnchorMissing('Tensorize for Batch<TrainItem> (found %d)' % len(cands))
+    t = cands[0]
+    n = 0
+    for c in closures_in(ctx, t, recursive=False):
+        al = ret_alts_paths(ctx.facts, c)
+        if al is None:
+            continue
+        vals = [peel(a.value) for a in al]
+        if not any(v[0] == 'agg' and 'Option::' in v[2] for v in vals) and not any(v[0] == 'call' and v[1].rsplit('::', 1)[-1] in ('then_some', 'then', 'filter') for v in vals):
+            continue
+        n += 1
+        for a in al:
+            if not consistent(a):
+                continue
+            v = peel(a.value)
+            if v[0] == 'call' and v[1].rsplit('::', 1)[-1] in ('then_some', 'then', 'filter'):
+                ctx.fail(c, 'conditional-keep', 'an item of the batch is kept only if `%s` holds (line %d): a dropped item shifts the rows of all later items and the lengths '
+                         'no longer have one entry per item' % (show_in(c, v[2][0])[:60], c.span['line']), c.span)
+            elif v[0] == 'agg' and v[2].endswith('Option::Some'):
+                extra = [tt for tt, pol in a.atoms]
+                ctx.require(not extra, c, 'keep-every-item', 'Some(..) is returned for every item of the branch variant (line %d)' % c.span['line'],
+                            'an item is kept only under %s (line %d)' % ([show_in(c, x)[:50] for x in extra], c.span['line']), c.span)
+    if n == 0:
+        raise AnchorMissing('the per-item extraction closures of tensorize')
